@@ -37,6 +37,13 @@ def do_call(E: Engine, node: ast.Call, st: State):
             return E.sumto(n, node.args[1], st)
         if nm == "count":       # count(lo, hi, lambda k: P) = sum_{lo<=k<hi} [P]  (as sumto over shifted index)
             raise OutsideSubset("count: use sumto")
+        if nm in ("sqrt", "sin", "cos", "exp", "log") and nm not in st.env:
+            E.math_used.add(nm)
+            return UF_MATH[nm](to_real(E.ev(node.args[0], st)))
+        if nm == "arctan2" and nm not in st.env:
+            return UF_MATH["arctan2"](to_real(E.ev(node.args[0], st)), to_real(E.ev(node.args[1], st)))
+        if nm == "radians" and nm not in st.env:
+            return to_real(E.ev(node.args[0], st)) * PI / 180
         if nm == "toreal":
             return to_real(E.ev(node.args[0], st))
         if nm == "toint":
@@ -47,6 +54,11 @@ def do_call(E: Engine, node: ast.Call, st: State):
         if nm in MACROS:
             m = MACROS[nm]
             args = [E.ev(a, st) for a in node.args]
+            if m.opaque is not None and nm not in (getattr(E.c, "reveal", None) or []):
+                sorts = [{"int": I, "real": R, "bool": B}[t] for t in m.opaque[0]]
+                f = z3.Function("macro." + nm, *(sorts + [{"int": I, "real": R, "bool": B}[m.opaque[1]]]))
+                zargs = [to_real(a) if t == "real" else (to_int_strict(a) if t == "int" else toz(a)) for a, t in zip(args, m.opaque[0])]
+                return f(*zargs)
             sub = State(dict(zip(m.params, args)), st.heap, st.pc)
             return E.ev(ast.parse(m.body, mode="eval").body, sub)
     fv = E.ev(f, st)
